@@ -930,3 +930,63 @@ def eval_deps(item):
         return {"skip": False, "got": sorted(got), "want": sorted(want), "sig": sig_digest(G)}
     except Exception as e:  # noqa
         return {"skip": False, "error": f"{type(e).__name__}: {e}", "tb": traceback.format_exc()[-1200:], "sig": sig_digest(G)}
+
+
+# ---------------------------------------------------------------------------------------------- C12: the real params.json route
+def eval_c12_real(item):
+    """GENERATE_ONLY submission of the root task writes a real job directory (CommandParameters -> params.json); the
+    real run() of run.py loads it; what the task body sees (values, wiring, tags) is compared with the description."""
+    import universe.g as U
+    import experimaestro.run as xrun
+    import experimaestro.taskglobals as tg
+    from experimaestro.scheduler.workspace import RunMode
+    G = item["G"]
+    out = {"problems": [], "sig": sig_digest(G), "done": 0}
+    root = G["root"]
+    if not (is_task(G, root) and not Gr.has_cycle(G)):
+        return out
+    try:
+        G2 = json.loads(json.dumps(G))
+        G2["nodes"][root]["tags"] = {"x": 5, "name": "v"}
+        B = Gr.build(G2)
+        Gr.submit(G2, B, root, run_mode=RunMode.GENERATE_ONLY)
+        job = B.tasks[root].__xpm__.job
+        params = job.path / "params.json"
+        if not params.is_file():
+            out["problems"].append({"kind": "no-params-file"})
+            return out
+        seen = {}
+        cls = type(B.tasks[root]).__xpmtype__.basetype
+        orig = cls.execute
+
+        def execute(self):
+            seen["self"] = self
+            seen["tags"] = dict(getattr(self, "__tags__", {}))
+        cls.execute = execute
+        oldp, env = xrun.progress, tg.Env.instance()
+        old_env = (env.wspath, env.taskpath)
+        xrun.progress = lambda *a, **k: None
+        U.LOG.clear()
+        try:
+            with Gr.quiet():
+                xrun.run(params)
+        finally:
+            cls.execute = orig
+            xrun.progress = oldp
+            env.wspath, env.taskpath = old_env
+        out["done"] = 1
+        if "self" not in seen:
+            out["problems"].append({"kind": "body-not-called"})
+            return out
+        ex, keep = extract(seen["self"], instance=True)
+        want = _canon_json(normalize(G2, instance=True))
+        got = _canon_json(ex)
+        if want != got:
+            out["problems"].append({"kind": "task-observes-other-values", "diff": _first_diff(json.loads(want), json.loads(got))})
+        if seen["tags"] != {"x": 5, "name": "v"}:
+            out["problems"].append({"kind": "task-observes-other-tags", "tags": seen["tags"]})
+        import shutil
+        shutil.rmtree(job.path, ignore_errors=True)
+    except Exception as e:  # noqa
+        out["problems"].append({"kind": "raises", "error": f"{type(e).__name__}: {e}", "tb": traceback.format_exc()[-1500:]})
+    return out
